@@ -196,7 +196,13 @@ func checkNoWaitUnderLock(c *engine.Ctx, li *engine.LockInfo, rule string) {
 	p := c.P
 	allowed := map[*ssa.Function]int{}
 	for i, e := range confirmedWaitsUnderLock {
-		if f := fn(c, e.fn); f != nil {
+		var f *ssa.Function
+		if e.fn == "client.Service.loopLoginUntilSuccess" {
+			f = clientLoginLoop(c) // found by what it does (it builds and runs the controls), whatever it is called
+		} else {
+			f = fn(c, e.fn)
+		}
+		if f != nil {
 			allowed[f] = i
 		}
 	}
@@ -260,6 +266,30 @@ func checkNoWaitUnderLock(c *engine.Ctx, li *engine.LockInfo, rule string) {
 				owner = owner.Parent()
 			}
 			key := p.FuncName(f) + ">holds-" + strings.Join(names, "+") + ">" + strings.ReplaceAll(kind, " ", "-")
+			// a step split out of a tabled function (an unexported helper only tabled functions call) stands for it
+			if _, ok := allowed[owner]; !ok {
+				if o, isFn := owner.Object().(*types.Func); isFn && !o.Exported() {
+					var callersOf []*ssa.Function
+					for _, g := range p.RepoFuncs() {
+						if len(engine.CallsTo(g, o)) > 0 {
+							r := g
+							for r.Parent() != nil {
+								r = r.Parent()
+							}
+							callersOf = append(callersOf, r)
+						}
+					}
+					same := len(callersOf) > 0
+					for _, g := range callersOf {
+						if _, ok := allowed[g]; !ok || allowed[g] != allowed[callersOf[0]] {
+							same = false
+						}
+					}
+					if same {
+						owner = callersOf[0]
+					}
+				}
+			}
 			if i, ok := allowed[owner]; ok {
 				e := confirmedWaitsUnderLock[i]
 				if kind == e.kind && len(names) == 1 && strings.HasSuffix(names[0], e.lock) {
